@@ -94,4 +94,110 @@ end.
 Definition gen_Inner_handle_channel0_readable (fuel : nat) (self : val) (ch0_slot : val) : val * val :=
 (gen_Inner_handle_channel0_readable_loop1 fuel self ch0_slot).
 
+(* ---- /repo/src/io_loop/mod.rs :: Inner.handle_channel_readable ---- *)
+Fixpoint gen_Inner_handle_channel_readable_loop1 (fuel : nat) (self_l : val) (channel_id_l : val) (high_water_l : val) {struct fuel} : val * val :=
+match fuel with
+| O => (self_l, VStuck)
+| S fuel_ =>
+(if true then
+(if (v_ltb high_water_l (v_len (v_field "outbuf" self_l))) then
+let self_1 := (v_set "channels_need_repoll" (VC "true" []) self_l) in
+(self_1, (VC "Ok" [(VC "()" [])]))
+else
+(let '(self_2, v_3) := ext_st "chan_slots.get" [channel_id_l] self_l in
+let scrut_4 := v_3 in
+(let next_5 := fun _ : unit =>
+(let next_6 := fun _ : unit =>
+(self_2, VStuck) in
+match scrut_4 with
+| VC c_ args_ =>
+  if (c_ =? "None")%string then
+    match args_ with
+    | [] => (self_2, (VC "Ok" [(VC "()" [])]))
+    | _ => next_6 tt
+    end
+  else next_6 tt
+| _ => next_6 tt
+end) in
+match scrut_4 with
+| VC c_ args_ =>
+  if (c_ =? "Some")%string then
+    match args_ with
+    | [a_7] => let v_8 := a_7 in
+(let '(self_9, v_10) := ext_st "slot.rx.try_recv" [v_8] self_2 in
+let scrut_11 := v_10 in
+(let next_12 := fun _ : unit =>
+(let next_13 := fun _ : unit =>
+(let next_14 := fun _ : unit =>
+(self_9, VStuck) in
+match scrut_11 with
+| VC c_ args_ =>
+  if (c_ =? "Err")%string then
+    match args_ with
+    | [a_15] => match a_15 with
+| VC c_ args_ =>
+  if (c_ =? "TryRecvError::Disconnected")%string then
+    match args_ with
+    | [] => (self_9, (VC "Err" [VC "Error::EventLoopClientDropped" []]))
+    | _ => next_14 tt
+    end
+  else next_14 tt
+| _ => next_14 tt
+end
+    | _ => next_14 tt
+    end
+  else next_14 tt
+| _ => next_14 tt
+end) in
+match scrut_11 with
+| VC c_ args_ =>
+  if (c_ =? "Err")%string then
+    match args_ with
+    | [a_16] => match a_16 with
+| VC c_ args_ =>
+  if (c_ =? "TryRecvError::Empty")%string then
+    match args_ with
+    | [] => (self_9, (VC "Ok" [(VC "()" [])]))
+    | _ => next_13 tt
+    end
+  else next_13 tt
+| _ => next_13 tt
+end
+    | _ => next_13 tt
+    end
+  else next_13 tt
+| _ => next_13 tt
+end) in
+match scrut_11 with
+| VC c_ args_ =>
+  if (c_ =? "Ok")%string then
+    match args_ with
+    | [a_17] => let '(self_18, v_19) := ext_st "self.process_channel_message" [channel_id_l; a_17] self_9 in
+let tried_20 := v_19 in
+let after_23 := fun okval_21 : val =>
+(gen_Inner_handle_channel_readable_loop1 fuel_ self_18 channel_id_l high_water_l) in
+match tried_20 with
+| VC "Err" [err_22] => (self_18, (VC "Err" [err_22]))
+| VC "Ok" [okval_21] => after_23 okval_21
+| VC "None" [] => (self_18, (VC "None" []))
+| VC "Some" [okval_21] => after_23 okval_21
+| _ => (self_18, VStuck)
+end
+    | _ => next_12 tt
+    end
+  else next_12 tt
+| _ => next_12 tt
+end))
+    | _ => next_5 tt
+    end
+  else next_5 tt
+| _ => next_5 tt
+end)))
+else
+(self_l, (VC "()" [])))
+end.
+
+Definition gen_Inner_handle_channel_readable (fuel : nat) (self : val) (channel_id : val) (high_water : val) : val * val :=
+(gen_Inner_handle_channel_readable_loop1 fuel self channel_id high_water).
+
 End Gen.
